@@ -547,10 +547,12 @@ pub fn run(ctx: &Ctx) -> PropResult {
     wls.push(Workload::cases("offset_local_twins", ctx.count(6_000, 40_000), |rec, _, rng| super::localzone::twin_case(rec, rng, "C09", super::walk::Family::SetClear)));
     wls.push(Workload::cases("date_api_walks", ctx.count(20_000, 800_000), |rec, _, rng| super::walk::walk_date(rec, rng, "C09", super::walk::Family::SetClear)));
     wls.push(Workload::cases("api_walks", ctx.count(30_000, 1_500_000), |rec, _, rng| super::walk::walk(rec, rng, "C09", super::walk::Family::SetClear)));
+    wls.push(Workload::cases("trait_dispatch_vs_method_syntax", ctx.count(8_000, 200_000), |rec, _, rng| super::ufcs::case(rec, rng, "C09")));
     let out = run_workloads(ctx, wls);
     let mut meta = PropMeta::default();
     meta.rule = "instants rich in month ends, Feb 28/29/Mar 1 of leap and common (century) years AD and BC, year ends, 0001-01-01 ± 2 d and end-of-day times x offsets {0, whole hours, the offsets that carry the local date across midnight in either direction for that instant ±3 s, uniform ±86399} x 10 setters x candidate values (every value of the small domains on sampled instants; boundary ±1, 2^31, u32::MAX, year 0, leap/common/range-end years, random) and 9 clear_until_*; random API walks in which set_*/clear_until_* steps are judged; Date (4 setters, 3 clears) and Time (6 setters, 6 clears, offsets that wrap midnight) likewise. Oracle: local fields of i + offset, edit one field, re-assemble, subtract the offset; all ten getters, the instant and the offset are compared. Results within one day of the range ends are skipped (no representable expectation). Every case is non-trivial; distinct by input hash. Absolute check besides the differential one: after set_<f>(v) the getter of f reads v; after clear_until_<u> the getters of u and everything finer read their minimum. Offset::Local twins for setters and clears (system zone hooked; real zones with transitions, the value possibly on the other side of a transition from the pinned 'now'). Sibling call sequences; Date API walks; Offset::Local twins also for Time setters/clears, with values and setter targets within hours of the hooked zone's own transitions and the clock pinned on transition days.".into();
-    meta.required_bins = vec![
+    meta.rule.push_str(" The property's trait methods are also called through the trait (generic code / UFCS) and must agree with method syntax on the same operands (a type may grow inherent twins of its trait methods).");
+    meta.required_bins = vec!["trait-dispatch/compared", 
         "local-twin/time-judged",
         "date-walk/with-judged-steps",
         "sequence/sibling-calls",
